@@ -175,6 +175,7 @@ pub fn run(a: &Args) {
             let arg = if class == "noeq" { format!("{}-novalue", key) } else { format!("{}={}", key, text) };
             argv.push("-o".into());
             argv.push(arg);
+            let class = if class == "int" && text.starts_with('+') { "plusint" } else { class };
             opts_j.push(json!({"k": hexs(key.as_bytes()), "text": hexs(text.as_bytes()), "class": class, "ival": ival}));
         }
         argv.push(target.clone());
